@@ -690,9 +690,49 @@ func c03Gates(c *Ctx) {
 			}
 			return false
 		}
+		// a call counts as the probe when it is the probe itself, or a same-package helper every answering return of which is
+		// preceded by the probe (`return s.deployedValue(addr, read)` — refactoring C03-R9)
+		var alwaysProbes func(g *ssa.Function, depth int) bool
+		isProbeCall := func(s Site, self *ssa.Function, depth int) bool {
+			if s.Callee == nil || s.Callee == self {
+				return false
+			}
+			if s.Callee.Name() == "checkDeployed" || s.Callee.Name() == "ContractDeployedAt" || (s.Callee.Signature.Results().Len() == 1 && reachesProbe(s.Callee)) {
+				return true
+			}
+			return depth < 2 && pkgRelOf(s.Callee) == a.pkg && alwaysProbes(s.Callee, depth+1)
+		}
+		alwaysProbes = func(g *ssa.Function, depth int) bool {
+			if g == nil || len(g.Blocks) == 0 || !reachesProbe(g) {
+				return false
+			}
+			var ps []ssa.Instruction
+			for _, s := range sitesOf(g) {
+				if isProbeCall(s, g, depth) {
+					ps = append(ps, s.Instr)
+				}
+			}
+			n := 0
+			for _, ret := range returnsOf(g) {
+				if isErrorReturn(p, ret) {
+					continue
+				}
+				n++
+				ok := false
+				for _, pr := range ps {
+					if dominatesInstr(pr, ret.Ret) {
+						ok = true
+					}
+				}
+				if !ok {
+					return false
+				}
+			}
+			return n > 0
+		}
 		var probes []ssa.Instruction
 		for _, s := range sitesOf(f) {
-			if s.Callee != nil && s.Callee != f && (s.Callee.Name() == "checkDeployed" || s.Callee.Name() == "ContractDeployedAt" || (s.Callee.Signature.Results().Len() == 1 && reachesProbe(s.Callee))) {
+			if isProbeCall(s, f, 0) {
 				probes = append(probes, s.Instr)
 			}
 		}
@@ -1074,7 +1114,14 @@ func isErrorReturn(p *Prog, ret *retInfo) bool {
 // has already deleted through the batch therefore sees nothing (and typically treats "not found" as "nothing to do"): whatever
 // it was going to undo from that data stays behind (seeded change C04-H: the L1-message index was derived from the block's
 // transactions after they had been deleted). Decided per function of blockchain/statebackend reachable from a RevertHead
-// closure: for two distinct top-level steps s1 before s2, Delete/DeleteRange(B) ∈ effects(s1) ∧ Get/Has/Iterate(B) ∈ effects(s2).
+// closure: for two distinct top-level steps s1 before s2, Delete/DeleteRange(B) ∈ effects(s1) ∧ Get/Has/Iterate(B) ∈ effects(s2),
+// for the buckets B that hold one entry per block keyed by its number (for buckets keyed by class, contract or hash the deleted
+// and the read entries may differ — bucket granularity would raise false alarms there: refactoring C04-R9).
+// buckets that hold exactly one entry per block, keyed by the block number: inside the undo of one block every access to
+// them concerns the same key, so "deleted, then read" means "read what was just deleted"
+var c04PerBlockBucket = map[string]bool{"BlockHeadersByNumber": true, "BlockTransactions": true, "StateUpdatesByBlockNumber": true, "BlockCommitments": true,
+	"TransactionsByBlockNumberAndIndex": true, "ReceiptsByBlockNumberAndIndex": true}
+
 func c04ReadAfterDelete(c *Ctx) {
 	p := c.P
 	ci := p.caps()
@@ -1134,6 +1181,9 @@ func c04ReadAfterDelete(c *Ctx) {
 						continue
 					}
 					for b, de := range sites[s1].del {
+						if !c04PerBlockBucket[b] {
+							continue // keyed by class/contract/hash: the deleted and the read entries may be different ones
+						}
 						if re, ok := sites[s2].read[b]; ok {
 							bad = fmt.Sprintf("bucket %s is read (%s, %s) after an earlier step of %s deleted it through the batch (%s, %s)", b, qname(re.Fn), p.Pos(re.Pos), fn.Name(), qname(de.Fn), p.Pos(de.Pos))
 							badPos = s2.Pos()
